@@ -4,7 +4,7 @@ CFG = dict(
     tests=["TestC06"],
     pkg="c06",
     n_quick=400, n_thorough=1500, shards_thorough=6,
-    rule="corpus + 22 boundary families (accept lower/equal/higher, perform then re-accept, min-confirmations edge, older/newer-block "
+    rule="corpus + 38 boundary families (event polled before the acceptance and still returned afterwards, for every event type and min-confirmations setting; event polled while the record was expired; accept lower/equal/higher, perform then re-accept, min-confirmations edge, older/newer-block "
          "events, duplicated/late events, expiry at the exact nanosecond, expiry refreshed by an event, restart, life-cycle per event "
          "type, unknown upkeep type, window 0, default 20 min window, event before accept, visited entry outliving the record, "
          "plug-in any-of reports, plug-in restart) + VERIF_N random histories of 5-60 operations over 1-4 work ids from one PRNG "
